@@ -274,7 +274,8 @@ pub fn replay(cases: &str, seed: u64, out: &str) {
         let kinds: Vec<String> = c["kinds"].as_array().unwrap().iter().map(|x| x.as_str().unwrap().to_string()).collect();
         let mut vals: Vec<Number> = (0..n)
             .map(|k| {
-                let v = rand_value(&mut r);
+                // log-linear and zero-rate curves need positive values; the other rules take any real number
+                let v = if i % 4 == 1 && !["log_linear", "linear_zero_rate"].contains(&rule.as_str()) { r.uniform(-2.0, 2.0) } else { rand_value(&mut r) };
                 match kinds[k % kinds.len()].as_str() {
                     "D" => Number::Dual(Dual::try_new(v, vec![format!("own{}", k), "common".to_string()], vec![r.uniform(0.5, 2.0), r.uniform(-1.0, 1.0)]).unwrap()),
                     _ => Number::F64(v),
@@ -316,9 +317,10 @@ pub fn record(seed: u64, n: usize, out: &str) {
         let rule = r.pick(&RULES).to_string();
         let via = if r.coin() { "Curve" } else { "CurveDF" }.to_string();
         let dual_nodes = r.chance(0.3);
+        let signed = r.chance(0.25) && !["log_linear", "linear_zero_rate"].contains(&rule.as_str());
         let mut vals: Vec<Number> = (0..nn)
             .map(|k| {
-                let v = rand_value(&mut r);
+                let v = if signed { r.uniform(-2.0, 2.0) } else { rand_value(&mut r) };
                 if dual_nodes && r.chance(0.6) {
                     Number::Dual(Dual::try_new(v, vec![format!("z{}", k)], vec![r.uniform(0.5, 2.0)]).unwrap())
                 } else {
